@@ -373,8 +373,40 @@ def run(ctx, anchors=None):
     ctx.inst(ok_dec, "R07.3", "interpreter-decode", opstep.loc(dec) if dec is not None else opstep.loc(),
              "the interpreter decodes OP_1NEGATE, OP_1..OP_16 as opcode - (OP_1-1)")
 
+    # ---- R07.4 the opcode-name lookup of the literal parser sees the token as it was written: an explicit `0x` makes a token a
+    # byte string, so `0x10` must not reach GetOpCode as "10" (a name of the table: OP_10). No assignment to the token pointer /
+    # length parameter reaches the lookup call.
+    ctx.rule("R07.4", "Value's literal parser looks the token up as an opcode name before any rewriting of the token (0x stripping)")
+    n74 = 0
+    for f in sorted(fb.funcs.values(), key=lambda f_: f_.id):
+        if f.body is None or f.rec != "Value" or f.short != "Value":
+            continue
+        lookups = [n for n in f.nodes() if n["k"] == "call" and n.get("n") == "GetOpCode" and n.get("args") and n["args"][0] is not None]
+        for cn in lookups:
+            a0 = cn["args"][0]
+            while a0 is not None and a0.get("k") in ("cast", "paren"):
+                a0 = a0["e"]
+            if a0 is None or a0.get("k") != "ref" or a0.get("dk") != "parm":
+                continue
+            n74 += 1
+            ctx.site()
+            fcfg = f.cfg()
+            pos = fcfg.position(cn)
+            rewrites = []
+            for n in f.nodes():
+                tgt = n["lhs"] if n["k"] in ("assign", "cassign") else (n["e"] if n["k"] == "un" and n.get("op") in ("++", "--") else None)
+                if tgt is not None and tgt.get("k") == "ref" and tgt.get("d") == a0.get("d"):
+                    q = fcfg.position(n)
+                    if pos is not None and q is not None and (q[0] == pos[0] and q[1] < pos[1] or (q[0] != pos[0] and pos[0] in fcfg.reachable_from(q[0]))):
+                        rewrites.append(n)
+            ctx.inst(not rewrites, "R07.4", "opcode-lookup-sees-the-token-as-written", f.loc(cn), "no rewrite of `%s` reaches GetOpCode(%s)" % (a0["n"], a0["n"]),
+                     "`%s` at line %s rewrites the token before GetOpCode(%s): with the `0x` stripped, the byte literals 0x10 .. 0x16 are looked up as the names \"10\" .. \"16\" and compile to OP_10 .. OP_16 instead of one-byte pushes"
+                     % (astq.estr(rewrites[0])[:40] if rewrites else "", rewrites[0].get("l") if rewrites else "", a0["n"]))
+    ctx.floor("R07.4", n74, 1, "opcode-name lookups in Value's constructors")
+
 
 MUTANTS = [
+    dict(name="prefix-stripped-before-the-name-lookup", file="value.h", find="        // opcode check\n        opcode = GetOpCode(v);", replace="        if (vlen > 2 && v[0] == '0' && v[1] == 'x') { vlen -= 2; v = &v[2]; }\n        // opcode check\n        opcode = GetOpCode(v);", expect=["R07.4:opcode-lookup-sees-the-token-as-written"]),
     dict(name="hex-early-out", file="debugger/script.cpp", find="    // push value\n    #define c(v)", replace="    if (IsHex(name)) return OP_INVALIDOPCODE;\n    // push value\n    #define c(v)", expect=["R07.1:exit-before-table"]),
     dict(name="row-returns-neighbour", file="debugger/script.cpp", find="    c(SWAP);\n", replace="    if (!strcmp(\"SWAP\", name)) return OP_ROT;\n", expect=["R07.1:row=SWAP"]),
     dict(name="row-removed", file="debugger/script.cpp", find="    c(NOP3);\n", replace="", expect=["R07.1:accepted=OP_NOP3"]),
